@@ -106,6 +106,34 @@ def replay_leg(pid, rp, env):
 
 
 # ------------------------------------------------------------------------------------------------------
+# C14 : the length-mismatch clause in a build without debug assertions (a user's release build)
+
+def legs_c14(res, env, only=None):
+    t0 = time.time()
+    e = dict(env)
+    rc, out = run(["cargo", "build", "--profile", "nodebug", "--offline", "--quiet"], e, 3600, cwd=HARNESS)
+    binp = os.path.join(TARGET, "nodebug", "pmhv")
+    if rc != 0 or not os.path.exists(binp):
+        res.inconclusive.append("nodebug build failed: %s" % (out or "")[-300:].replace("\n", " | "))
+        return
+    rc, out = run([binp, "child", "c14mismatch", str(res.seed)], e, 600)
+    m = re.search(r"C14MISMATCHDONE calls=(\d+) accepted=(\d+) debug_assertions=(\w+)", out or "")
+    if not m:
+        res.inconclusive.append("nodebug mismatch leg did not finish (exit %s): %s" % (rc, (out or "")[-300:].replace("\n", " | ")))
+        return
+    calls, accepted, dbg = int(m.group(1)), int(m.group(2)), m.group(3)
+    if dbg != "false":
+        res.inconclusive.append("nodebug binary was built with debug assertions")
+    res.evaluations += calls
+    if accepted:
+        first = [l for l in out.splitlines() if l.startswith("C14MISMATCH-ACCEPTED")][0]
+        name = first.split()[1]
+        res.violation("C14/length-mismatch", "in a build without debug assertions %d of %d calls on sketches of unequal lengths returned a number; first: %s" % (accepted, calls, first[len("C14MISMATCH-ACCEPTED "):]), out, "nodebug")
+    res.legs.append({"leg": "nodebug", "tool": "second build of the harness, profile nodebug (debug-assertions and overflow-checks off)", "estimator_calls_on_unequal_lengths": calls,
+                     "accepted": accepted, "wall_s": round(time.time() - t0, 1)})
+
+
+# ------------------------------------------------------------------------------------------------------
 # C18 : Miri (quick + thorough), AddressSanitizer and valgrind memcheck (thorough)
 
 def first_repo_frame(text):
